@@ -33,7 +33,7 @@ func cmdVerify(args []string) int {
 		}
 	}
 	t0 := time.Now()
-	db, err := loadAllSpecs("/verif")
+	db, err := loadAllSpecs(verifDir)
 	if err != nil {
 		fmt.Fprintln(os.Stderr, "spec load:", err)
 		return 2
